@@ -79,6 +79,9 @@ pub fn run(ctx: &mut Ctx) {
     let cases = ctx.cases(2000, 10);
     let max = ctx.pick(300, 1500);
     ctx.forall("sequences", cases, gen::seq_spec(CodecId::Dna, max), seq_case);
+    let th = ctx.thorough();
+    let cases = ctx.cases(8, 8);
+    ctx.forall("sequences_long", cases, gen::seq_spec_long(CodecId::Dna, th), seq_case);
     ctx.require_class("codon_straddles_word");
     ctx.require_class("offset");
 }
